@@ -46,11 +46,16 @@ pub fn generate(seed: u64, tier: Tier) -> SoftStopPlan {
                     resp.body = crate::actors::h1::BodySpec::Cl(window + tail);
                     resp.delay_ns = 0;
                     resp.fault = None;
+                    // "finished and gone": in two plans of three the backend also closes its connection after the response,
+                    // announced (`Connection: close`) or not
+                    match rng.below(3) { 0 => resp.close_after = true, 1 => resp.silent_close_after = true, _ => {} }
                     b.pace = crate::actors::Pace::greedy();
                     let late = (200 + rng.below(200)) * MS;
                     c.conn.wu = crate::actors::h2::WuPolicy { stream: crate::actors::h2::WuMode::Late(late), conn: crate::actors::h2::WuMode::Eager, fallback_ns: late };
                     mux.soft_stop_at_ns = Some((40 + rng.below(110)) * MS);
                     mux.family = format!("{}_stalled_download", mux.family);
+                    // the stalled download alone (no later streams to be refused during the drain: that is the recorded C10-S1/S2)
+                    c.script.retain(|op| match op { crate::actors::h2::ClientOp::Req(r) => r.id == id, crate::actors::h2::ClientOp::WaitStreams => false, _ => true });
                 }
             }
         }
